@@ -10,10 +10,14 @@ ALPHA = ["US", "UE", "CI", "CF", "CS"]
 
 
 def concretise(h):
-    """give each update the next coordinate version (1,2,3,1,...) so repeated updates really move"""
+    """give each update the next coordinate version (1,2,3,1,...) so repeated updates really move; UB (a whole-atom move: the shells and
+    the ECP of the moving atoms are updated one call after the other, nothing is computed in between) expands to US<v> UE<v>"""
     out = []; ns = ne = 0
     for o in h:
-        if o == "US":
+        if o == "UB":
+            ns = ne = max(ns, ne) + 1; v = 1 + (ns - 1) % 3
+            out += ["US%d" % v, "UE%d" % v]
+        elif o == "US":
             ns += 1; out.append("US%d" % (1 + (ns - 1) % 3))
         elif o == "UE":
             ne += 1; out.append("UE%d" % (1 + (ne - 1) % 3))
@@ -32,6 +36,33 @@ def system(rng):
             "_disp": [(1, 31.0, 17.0, -24.0), (2, 0.11, -0.07, 0.05), (3, 0.06, 0.12, -0.1)]}      # version 1 moves beyond every screening radius, version 2 comes back: both crossings occur within the exhaustive lengths
 
 
+def system_far_start(rng):
+    """the same arrangement, but the integrator is BUILT with the movable shell and the movable ECP beyond every screening radius;
+    version 1 and 2 bring them next to the others, version 3 is far again: whatever init() derives from the geometry must be refreshed"""
+    D = (-31.0, -17.0, 24.0)
+    ns, ne = [1.9, 0.3, -0.4], [-0.6, 1.7, 0.8]
+    p0 = [0.0, 0.0, 0.0]
+    p1 = [a - d for a, d in zip(ns, D)]          # US adds disp to the shell
+    p2 = [a + d for a, d in zip(ne, D)]          # UE subtracts disp from the ECP
+    shells = [gen.rand_shell(rng, 0, p0, nprim=2, emin=0.3, emax=4.0), gen.rand_shell(rng, 1, p0, nprim=1, emin=0.3, emax=4.0),
+              gen.rand_shell(rng, 1, p1, nprim=1, emin=0.3, emax=4.0)]
+    ecps = [gen.rand_ecp(rng, 1, p0, nper=(1, 1), amin=0.4, amax=3.0), gen.rand_ecp(rng, 2, p2, nper=(1, 1), amin=0.4, amax=3.0)]
+    return {"id": "sysfar", "extra": {"mshell": [2], "mecp": [1]}, "shells": shells, "ecps": ecps,
+            "_disp": [(1, D[0], D[1], D[2]), (2, D[0] + 0.11, D[1] - 0.07, D[2] + 0.05), (3, 0.06, 0.12, -0.1)], "_alpha": ALPHA, "_natoms": 3}
+
+
+def system_cyclic(rng):
+    """three atoms, each with a shell and an ECP, the ECPs listed in a cyclic order (atoms 1, 2, 0) relative to the shells; atoms 1 and 2
+    move as whole atoms (UB): any internal re-ordering of the ECPs must be invisible to update_ecp_basis_coords"""
+    p = [[0.0, 0.0, 0.0], [1.9, 0.3, -0.4], [-0.6, 1.7, 0.8]]
+    shells = [gen.rand_shell(rng, 0, p[0], nprim=2, emin=0.3, emax=4.0), gen.rand_shell(rng, 1, p[1], nprim=1, emin=0.3, emax=4.0),
+              gen.rand_shell(rng, 0, p[2], nprim=1, emin=0.3, emax=4.0)]
+    ecps = [gen.rand_ecp(rng, 1, p[1], nper=(1, 1), amin=0.4, amax=3.0), gen.rand_ecp(rng, 2, p[2], nper=(1, 1), amin=0.4, amax=3.0),
+            gen.rand_ecp(rng, 1, p[0], nper=(1, 1), amin=0.4, amax=3.0)]
+    return {"id": "syscyc", "extra": {"mshell": [1], "mecp_plus": [0]}, "shells": shells, "ecps": ecps,
+            "_disp": [(1, 0.35, -0.2, 0.15), (2, -0.25, 0.3, 0.1), (3, 0.1, 0.15, -0.3)], "_alpha": ["UB", "CI", "CF", "CS"], "_natoms": 3}
+
+
 def write_system(path, s):
     gen.write_cases(path, [s])
     # disp lines need repeating keys: append manually inside the case
@@ -39,17 +70,22 @@ def write_system(path, s):
     open(path, "w").write(txt)
 
 
-def histories(rng, tier):
+def histories(rng, tier, alpha=ALPHA, short=False):
     hs = []
     maxlen = 4 if tier == "quick" else 5
+    if short:
+        maxlen -= 1
     for n in range(1, maxlen + 1):
-        for h in itertools.product(ALPHA, repeat=n):
+        for h in itertools.product(alpha, repeat=n):
             hs.append(list(h))
     nrand, lmax = (150, 14) if tier == "quick" else (2000, 40)
+    if short:
+        nrand //= 5
+    ups = [a for a in alpha if a.startswith("U")]
     for _ in range(nrand):
         n = rng.randint(maxlen + 1, lmax)
         # compute-heavy random histories
-        hs.append([rng.choice(["US", "UE", "CI", "CF", "CF", "CS", "CS"]) for _ in range(n)])
+        hs.append([rng.choice(ups + ["CI", "CF", "CF", "CS", "CS"]) for _ in range(n)])
     return hs, maxlen
 
 
@@ -89,44 +125,52 @@ def run(tier, replay=None):
         res.cov["obligation_error"] = (o1 + o2)[-800:]
     # --- correspondence + property on the implementation
     hs, maxlen = histories(rng, tier)
-    sysm = system(rng)
+    sysm = system(rng); sysm["_alpha"] = ALPHA; sysm["_natoms"] = 3
+    sfar = system_far_start(rng); scyc = system_cyclic(rng)
+    plans = [(sysm, hs), (sfar, histories(rng, tier, sfar["_alpha"], short=True)[0]), (scyc, histories(rng, tier, scyc["_alpha"], short=True)[0])]
     tmp = scratch_dir()
     try:
         exe = compile_driver("drv_hist.cpp", "rel")
-        sysf = os.path.join(tmp, "system.txt"); write_system(sysf, sysm)
-        # natoms of the system: 3 by construction
-        natoms = 3
-        nshard = min(NPROC, 16)
-        shards = [[] for _ in range(nshard)]
-        for i, h in enumerate(hs):
-            shards[i % nshard].append(("h%d" % i, concretise(h)))
-        procs = []
         import subprocess
-        for k, sh_ in enumerate(shards):
-            hf = os.path.join(tmp, "hist%d.txt" % k); pf = os.path.join(tmp, "pred%d.txt" % k); of = os.path.join(tmp, "out%d.txt" % k)
-            with open(hf, "w") as f:
-                for hid, ops in sh_:
-                    f.write(hid + " " + " ".join(ops) + "\n")
-            cmd = "%s %s %s %s %d %s > %s && %s %s %s %s" % (os.path.join(OCAML, "drv_hist"), d["d_int"], d["d_first"], d["d_second"], natoms, hf, pf, exe, sysf, pf, of)
-            procs.append((subprocess.Popen(cmd, shell=True, stdout=subprocess.PIPE, stderr=subprocess.STDOUT), of))
         mm, pv = [], []
         steps = entries = 0
-        for p, of in procs:
-            out, _ = p.communicate(timeout=7200)
-            if p.returncode != 0:
-                raise RuntimeError("history driver failed: %s" % out.decode()[-2000:])
-            for l in open(of):
-                if l.startswith("MODELMISMATCH"):
-                    mm.append(l.strip())
-                elif l.startswith("PROPVIOL"):
-                    pv.append(l.strip())
-                elif l.startswith("SUMMARY"):
-                    kv = dict(x.split("=") for x in l.split()[1:])
-                    steps += int(kv["steps"]); entries += int(kv["entries"])
-                elif l.startswith("natoms"):
-                    if int(l.split()[1]) != natoms:
-                        mm.append("MODELMISMATCH natoms impl=%s expected=%d" % (l.split()[1], natoms))
-        by = {("h%d" % i): concretise(h) for i, h in enumerate(hs)}
+        by = {}; sys_of = {}
+        allhs = []
+        for si, (sm_, hs_) in enumerate(plans):
+            sysf = os.path.join(tmp, "system%d.txt" % si); write_system(sysf, sm_)
+            natoms = sm_["_natoms"]
+            nshard = min(NPROC, 16)
+            shards = [[] for _ in range(nshard)]
+            for i, h in enumerate(hs_):
+                hid = "%sh%d" % ("" if si == 0 else "s%d" % si, i)
+                shards[i % nshard].append((hid, concretise(h)))
+                by[hid] = concretise(h); sys_of[hid] = sm_
+                allhs.append(h)
+            procs = []
+            for k, sh_ in enumerate(shards):
+                hf = os.path.join(tmp, "hist%d_%d.txt" % (si, k)); pf = os.path.join(tmp, "pred%d_%d.txt" % (si, k)); of = os.path.join(tmp, "out%d_%d.txt" % (si, k))
+                with open(hf, "w") as f:
+                    for hid, ops in sh_:
+                        f.write(hid + " " + " ".join(ops) + "\n")
+                cmd = "%s %s %s %s %d %s > %s && %s %s %s %s" % (os.path.join(OCAML, "drv_hist"), d["d_int"], d["d_first"], d["d_second"], natoms, hf, pf, exe, sysf, pf, of)
+                procs.append((subprocess.Popen(cmd, shell=True, stdout=subprocess.PIPE, stderr=subprocess.STDOUT), of))
+            for p, of in procs:
+                out, _ = p.communicate(timeout=7200)
+                if p.returncode != 0:
+                    raise RuntimeError("history driver failed: %s" % out.decode()[-2000:])
+                for l in open(of):
+                    if l.startswith("MODELMISMATCH"):
+                        mm.append(l.strip())
+                    elif l.startswith("PROPVIOL"):
+                        pv.append(l.strip())
+                    elif l.startswith("SUMMARY"):
+                        kv = dict(x.split("=") for x in l.split()[1:])
+                        steps += int(kv["steps"]); entries += int(kv["entries"])
+                    elif l.startswith("natoms"):
+                        if int(l.split()[1]) != natoms:
+                            mm.append("MODELMISMATCH natoms impl=%s expected=%d (system %s)" % (l.split()[1], natoms, sm_["id"]))
+        res.cov["systems"] = {sm_["id"]: {"histories": len(hs_), "alphabet": sm_["_alpha"]} for sm_, hs_ in plans}
+        hs = allhs
         res.cov["evaluations"] = len(hs)
         res.cov["distinct_nontrivial"] = len(set(tuple(h) for h in hs if any(o.startswith("C") for o in h)))
         res.cov["steps_executed"] = steps
@@ -145,7 +189,7 @@ def run(tier, replay=None):
             best = min(pv, key=lambda l: (len(by[l.split()[1]]), l))
             hid = best.split()[1]
             res.violation("history", {"theorem_or_correspondence": "C05_history_independent (per-run obligation discipline_ok(from_source))",
-                                      "input": {"system": {k: v for k, v in sysm.items() if not k.startswith("_")}, "disp": sysm["_disp"], "history": by[hid]},
+                                      "input": {"system": {k: v for k, v in sys_of[hid].items() if not k.startswith("_")}, "disp": sys_of[hid]["_disp"], "history": by[hid]},
                                       "observed": [l for l in pv if l.split()[1] == hid][:6],
                                       "discipline_from_source": d, "n_violating_histories": len(set(l.split()[1] for l in pv)),
                                       "cmd": "bin/check C05"})
